@@ -45,3 +45,35 @@ Example c23_reconnect_during_send :
   let r := fold_left (fun '(s, tr) o => let '(s', t, _) := script_step ex23 s o in (s', tr ++ t)) ops (c_init, []) in
   map send_code (sends (fst r)) = [1%nat] /\ quiescent ex23 (fst r) = true.
 Proof. vm_compute. repeat split. Qed.
+
+(* Composition (two clients, FIFO streams, the relay's Session RPC as modelled
+   in SignalClient/Compose.v and tied to the real relay by the composition
+   scripts): histories with a reconnect while a Send is in flight, followed by
+   a stable suffix scheduled by [wsettle] (every enabled internal action of
+   both clients and of the relay is eventually taken): the system comes to
+   rest, the Send has succeeded and the partner has received the message. *)
+Definition run_wscript (ops : list wop) : world * bool :=
+  fold_left (fun '(w, q) o => let '(w', _, q') := wscript_step w o in (w', q && q')) ops (w_init, true).
+
+Example c23_receiver_reconnects_during_send :
+  let r := run_wscript [WoConn true; WoConn false; WoSend true [120;121]; WoFail false; WoConn false; WoRecv false] in
+  snd r = true /\ wquiescent (fst r) = true /\
+  map send_code (sends (s_cl (w_a (fst r)))) = [1%nat] /\
+  map recv_code (recvs (s_cl (w_b (fst r)))) = [(1%nat, Some (sign_msg 0 [120;121] 1))].
+Proof. vm_compute. repeat split. Qed.
+
+Example c23_sender_reconnects_during_send :
+  let r := run_wscript [WoConn true; WoConn false; WoSend true [120;121]; WoFail true; WoConn true; WoRecv false] in
+  snd r = true /\ wquiescent (fst r) = true /\
+  map send_code (sends (s_cl (w_a (fst r)))) = [1%nat] /\
+  map recv_code (recvs (s_cl (w_b (fst r)))) = [(1%nat, Some (sign_msg 0 [120;121] 1))].
+Proof. vm_compute. repeat split. Qed.
+
+(* both directions at once, with both sides reconnecting *)
+Example c23_both_directions :
+  let r := run_wscript [WoConn true; WoConn false; WoSend true [1]; WoSend false [2]; WoFail false; WoFail true;
+                        WoConn false; WoConn true; WoRecv false; WoRecv true] in
+  snd r = true /\ wquiescent (fst r) = true /\
+  map send_code (sends (s_cl (w_a (fst r)))) = [1%nat] /\
+  map send_code (sends (s_cl (w_b (fst r)))) = [1%nat].
+Proof. vm_compute. repeat split. Qed.
